@@ -20,7 +20,7 @@ TEXT = {
          "kernel-checked max-probability bound + differential execution with exact log2 comparison"),
  "C07": ("§8 C07", "Lean theorem count_eq_card: the inclusion-exclusion count equals the number of strings over the alphabet hitting every required set, for every overlap pattern, number of sets and length; non-negativity; zero iff none. Tie: exact big integer from the real code (verif hook) compared digit for digit; float32 Entropy() vs exact log2.",
          "kernel-checked inclusion-exclusion proof + exact-integer differential execution"),
- "C08": ("§8 C08", "Lean theorems: entropy descriptor formula; uncapitalisable count and kept set independent of every visiting order of the map and of permutation/duplication of the input. Tie: wlnew repeated constructions (Go's real map order varies) and wlent on the real code.",
+ "C08": ("§8 C08", "Lean theorems: entropy descriptor formula; uncapitalisable count and kept set independent of every visiting order of the map and of permutation/duplication of the input; regenerated fact: no floating-point comparison decides anything about a list (list_decisions_exact). Tie: wlnew repeated constructions (Go's real map order varies) and wlent on the real code.",
          "kernel-checked order-independence proof + repeated-construction differential execution"),
  "C09": ("§8 C09", "Lean theorems: a run depends only on the decoded words; chunking of reads is irrelevant; a fault at any read position yields panic, never a password. Regenerated facts: crypto/rand is the only randomness-capable import/call. Tie: fault/short-read injection at every read position on the real code.",
          "kernel-checked fault/chunking proof + regenerated import facts + fault injection"),
